@@ -387,6 +387,40 @@ func gen(out *vc.Out, r *vc.Rand, thorough bool) {
 		emit(out, res, "random")
 	}
 
+	// H. plain GetList readers beside append/remove, with tiers that answer the list as a JSON string (remote
+	// storage, data loaded after a restart, Redis): every interleaving, so that anything a reader writes
+	// after it left the key lock lands after a complete concurrent mutation
+	jsonCases := []struct {
+		key    string
+		pe, sh bool
+		init   [3]string
+	}{
+		{"tunnox:persist:clients:list", true, false, [3]string{"-", "-", "J1,2"}},
+		{catKeys[3], true, true, [3]string{"-", "-", "J1,2"}},
+		{catKeys[3], true, true, [3]string{"-", "J1,2", "J1,2"}},
+		{catKeys[3], true, false, [3]string{"-", "-", "J1,2"}},
+		{catKeys[2], false, true, [3]string{"-", "J1,2", "-"}},
+		{"tunnox:index:conncode:target:k1", false, true, [3]string{"-", "J1,2", "-"}},
+		{catKeys[1], true, false, [3]string{"L1,2", "-", "L1,2"}},
+	}
+	for _, jc := range jsonCases {
+		sets := [][]string{{"getl", "app:7"}, {"getl", "rem:1"}, {"app:7", "getl"}, {"getl", "getl"}}
+		if thorough {
+			sets = append(sets, []string{"getl", "app:7", "app:8"}, []string{"getl", "app:7", "getl"}, []string{"getl", "rem:1", "app:7"})
+		}
+		for _, ops := range sets {
+			k := &kase{variant: variantFlag, pe: jc.pe, sh: jc.sh, key: jc.key, init: jc.init, ops: ops}
+			explore(out, k, 0, "", limit, "list-readers-json")
+			if jc.pe && thorough {
+				explore(out, k, 1, "p", limit, "list-readers-json-pfault")
+			}
+		}
+		for _, op := range []string{"get", "getl", "ex", "app:7", "rem:1", "del", "set:L5,6:0"} {
+			k := &kase{variant: variantFlag, pe: jc.pe, sh: jc.sh, key: jc.key, init: jc.init, ops: []string{op}}
+			single(out, k, "json-single")
+		}
+	}
+
 	// F. a cache entry expires / is evicted at any point of the schedule (persisted categories: the cache is
 	// only a cache, nothing may be lost or resurrected)
 	evKeys := []struct {
